@@ -262,11 +262,23 @@ def run(ctx):
             ctx.fail("C01-R2", g.path, "durations", "the streams are generated from different duration vectors: %s" % dl, g.loc())
         # placeholder
         okp = False
-        for x in eb.expand_all(("var", [l for l, d in enumerate(g.locals) if d.get("name") == "lpf"][0] if any(d.get("name") == "lpf" for d in g.locals) else 0, None)):
-            if x[0] == "call" and x[1].endswith("from_elem") and x[2][0][0] == "call" and x[2][0][1].endswith("from_elem"):
-                n = show(x[2][1])
-                if n.startswith("len(") and "MlpgAdjust" in n and "create" in n:
-                    okp = True
+        # by role: the low-pass trajectory is the argument SpeechGenerator::new receives in its
+        # `lpf` parameter; without an LPF stream it is a vector of lf0.len() empty rows
+        from ..expr import alternatives
+        sgn = p.bodies.get(SG + "new")
+        for sbb, stt in cm.local_calls(g, p, exact=SG + "new"):
+            names = [sgn.local_name(i + 1) for i in range(len(stt["args"]))] if sgn is not None else []
+            if "lpf" not in names or "lf0" not in names:
+                continue
+            lpf_e = eb.at(sbb).op(stt["args"][names.index("lpf")])
+            lf0_e = eb.at(sbb).op(stt["args"][names.index("lf0")])
+            for x in alternatives(eb, lpf_e):
+                if x[0] == "call" and x[1].endswith("from_elem") and len(x[2]) == 2:
+                    row, n = x[2]
+                    empty = (row[0] == "call" and row[1].endswith("from_elem") and row[2][1][0] == "c" and row[2][1][1] == 0) or \
+                            (row[0] == "call" and row[1].endswith("Vec::<T>::new"))
+                    if empty and n[0] == "len" and canon(n[1]) == canon(lf0_e) and "MlpgAdjust" in show(n) and "create" in show(n):
+                        okp = True
         if okp:
             ctx.ok("C01-R2", "2-stream voices: LPF placeholder has lf0.len() rows", g.loc())
         else:
@@ -509,13 +521,18 @@ def odd_lpf(ctx, p, site):
         return
     eb = ExprBuilder(nb)
     gs = paths.guards(nb, site.bb, eb)
-    # find the guard on len(lpf[0])
+    # the width of the first low-pass row, however it is spelled
+    WIDTHS = ("len(lpf[0])",
+              "len((core::slice::<impl [T]>::first(lpf) as Some).0)",
+              "(std::option::Option::<T>::map(core::slice::<impl [T]>::first(lpf), fn:std::vec::Vec::<T, A>::len) as Some).0")
+
+    def has_width(e):
+        return any(show(x) in WIDTHS for x in walk(e))
+    # find the guard on the width
     pred = None
     for gd in gs:
-        if gd[0] in ("true", "false") and "len(lpf[0])" in show(gd[1]):
+        if gd[0] in ("true", "false") and has_width(gd[1]):
             pred = gd
-    skip_when_empty_rows = any(gd[0] == "false" and show(gd[1]) in ("std::vec::Vec::<T, A>::is_empty(lpf[0])",) for gd in gs) or \
-        any(gd[0] in ("true", "false") and "len(lpf[0])" in show(gd[1]) and gd is not pred for gd in gs)
     if pred is None:
         ctx.fail("C01-R6", site.fn, "panic odd", "cannot find the width predicate guarding the panic", site.loc())
         return
@@ -530,7 +547,7 @@ def odd_lpf(ctx, p, site):
     pos, c = paths.bool_atoms(pred)
 
     def ev(e, w):
-        if show(e) == "len(lpf[0])":
+        if show(e) in WIDTHS:
             return w
         if e[0] == "c":
             return e[1]
@@ -550,7 +567,7 @@ def odd_lpf(ctx, p, site):
         # all other guards on the same quantity must also hold for the panic to be reached
         reach = True
         for gd in gs:
-            if gd[0] in ("true", "false") and "len(lpf[0])" in show(gd[1]):
+            if gd[0] in ("true", "false") and has_width(gd[1]):
                 pp, cc = paths.bool_atoms(gd)
                 v = ev(cc, w)
                 if v is None:
@@ -611,6 +628,8 @@ FDIV_T2 = [
      "behind parmgen's gv_length != 0, and gv_length <= mtx.length; win_size >= 1"),
     ("model::interporation_weight::Weights::average", r"^nvoices$",
      "nvoices = VoiceSet::len() >= 1: VoiceSet::new rejects an empty list (C19-R1)"),
+    ("model::interporation_weight::InterporationWeight::new", r"^nvoices$",
+     "the same division when the equal-share helper is inlined / renamed: nvoices = VoiceSet::len() >= 1 (C19-R1)"),
     ("vocoder::Vocoder::synthesize", r"^self\.fperiod$",
      "fperiod >= 1: set_fperiod stores max(v, 1) (C20-R1) and load_model takes the voice's frame period"),
     ("vocoder::excitation::Excitation::start", r"^fperiod$",
@@ -714,8 +733,14 @@ def r8(ctx, p, cg, K):
                     continue
                 site = ledger.Site("fdiv", path, ds[:300], "", st["span"], bb, st, b)
                 ent = None
+                encf = b
+                nf_ = 0
+                while encf is not None and encf.kind == "Closure" and nf_ < 6:
+                    encf = p.bodies.get(encf.parent)     # the inliner re-parents closures of helpers it inlined
+                    nf_ += 1
+                encfp = encf.path if encf is not None else path
                 for k_, (fnp, rx, why_) in enumerate(FDIV_T2F):
-                    if (path == fnp or path.startswith(fnp + "::")) and re.search(rx, site.shape()):
+                    if (path == fnp or path.startswith(fnp + "::") or encfp == fnp) and re.search(rx, site.shape()):
                         ent = (k_, why_)
                         break
                 if ent:
